@@ -470,10 +470,12 @@ def run_assign(case, ctx):
 def table_case(draw, tier="quick"):
     n = draw(st.integers(1, 5))
     k = draw(st.integers(1, 4))
-    kinds = [draw(st.sampled_from(["int", "float", "str", "bool"])) for _ in range(k)]
-    cols = [(f"c{i}", draw(V.column(kind=kinds[i], min_size=n, max_size=n, elements=_small(kinds[i])))[1]) for i in range(k)]
     form = draw(st.sampled_from(["cell", "row", "row2", "column", "region_scalar", "region_cols", "region_table", "mask_scalar",
-                                 "rows_list", "rows_list", "rows_mask"]))
+                                 "rows_list", "rows_list", "rows_mask", "row_from_column"]))
+    if form == "row_from_column":
+        k = n = draw(st.integers(2, 4))        # a square table: one of its own (live) columns is assigned as a row
+    kinds = [draw(st.sampled_from(["int", "float", "str", "bool"] if form != "row_from_column" else ["int", "int", "float"])) for _ in range(k)]
+    cols = [(f"c{i}", draw(V.column(kind=kinds[i], min_size=n, max_size=n, elements=_small(kinds[i])))[1]) for i in range(k)]
     r = draw(st.integers(-n - 1, n))
     c = draw(st.integers(0, k - 1))
     r0, r1 = sorted([draw(st.integers(0, n)), draw(st.integers(0, n))])
@@ -496,6 +498,8 @@ def table_case(draw, tier="quick"):
         if bad == "type" and colv:
             colv[draw(st.integers(0, ln - 1))] = b"x"
         vals = {"col": colv}
+    elif form == "row_from_column":
+        vals = {}
     elif form in ("rows_list", "rows_mask"):
         # rows given as an index list / tuple / vector or as a boolean mask, columns by position, slice or name(s); a scalar value
         rows = draw(st.lists(st.integers(-n, n - 1), min_size=1, max_size=3))
@@ -563,6 +567,16 @@ def run_table(case, ctx):
         if -n <= r < n:
             addressed = {(r % n, c)}
             want = {(r % n, c): value}
+        else:
+            ok_model = False
+    elif form == "row_from_column":
+        # the value is a live column of the table itself: its cells as they were when the assignment started
+        key = (r, slice(None))
+        value = t.cols()[c]
+        snapshot_ = list(cols[c][1])
+        if -n <= r < n:
+            addressed = {(r % n, j) for j in range(k)}
+            want = {(r % n, j): snapshot_[j] for j in range(k)}
         else:
             ok_model = False
     elif form in ("row", "row2"):
